@@ -4,6 +4,7 @@
 package main
 
 import (
+	"time"
 	"strings"
 	"sort"
 	"bytes"
@@ -37,15 +38,36 @@ func b01(b bool) string {
 	return "0"
 }
 
-// safeSanitize runs Sanitize and reports a panic as the literal PANIC.
-func safeSanitize(p *bluemonday.Policy, in []byte) (res string) {
-	defer func() {
-		if e := recover(); e != nil {
-			res = "PANIC"
-		}
+// safeSanitize runs Sanitize, reports a panic as the literal PANIC and a call that does not
+// return within the deadline as the literal TIMEOUT (the runaway goroutine ends with the process;
+// after a few of them the harness flushes what it has and stops).
+func safeSanitize(p *bluemonday.Policy, in []byte) string {
+	done := make(chan string, 1)
+	go func() {
+		defer func() {
+			if e := recover(); e != nil {
+				done <- "PANIC"
+			}
+		}()
+		done <- bmx.HexField([]byte(p.Sanitize(string(in))))
 	}()
-	return bmx.HexField([]byte(p.Sanitize(string(in))))
+	select {
+	case r := <-done:
+		return r
+	case <-time.After(sanitizeDeadline):
+		timeouts++
+		if timeouts >= 3 && onTooManyTimeouts != nil {
+			defer onTooManyTimeouts()
+		}
+		return "TIMEOUT"
+	}
 }
+
+var (
+	sanitizeDeadline  = 10 * time.Second
+	timeouts          int
+	onTooManyTimeouts func()
+)
 
 // policy registers a built policy with the driver and returns its id.
 func (c *ctx) policy(ops []*bmx.Op) (int, *bluemonday.Policy) {
@@ -154,6 +176,11 @@ func main() {
 	}
 	defer w.Flush()
 	c := &ctx{w: w, r: rand.New(rand.NewSource(*seed)), n: *n, work: *work, prop: *prop}
+	onTooManyTimeouts = func() {
+		fmt.Fprintf(w, "# stopped_after_timeouts %d\n", timeouts)
+		w.Flush()
+		os.Exit(0)
+	}
 	fn, ok := families[*family]
 	if !ok {
 		fmt.Fprintln(os.Stderr, "unknown family", *family)
